@@ -213,6 +213,42 @@ def run(ctx, rep):
             tb, fb = bool_edge_blocks(so, flow, cfg, lambda k, p=pred: k is not None and k.endswith("::" + p))
             aggs = [bi for bi, blk in enumerate(so.blocks) for s in blk["s"] if s["k"] == "assign" and s["rv"]["k"] == "agg" and s["rv"].get("adt") == STR and s["rv"]["variant"] == variant]
             rep.ob("strength-order", f"{variant}", bool(aggs) and all(a in tb for a in aggs), f"{variant} is produced on the {pred}() true edge", so.file, so.line)
+    # ---- undefined-reference error: the whole decision, as a boolean function ------------------------------------------
+    import decide
+    rep.rule("undefined-function", "should_emit_undefined_error == absolute && symbol readable && !allow_object_undefined && !referrer_is_weak && behaviour not in "
+             "{IgnoreAll, IgnoreInObjectFiles} && SymbolDb::is_undefined(id); SymbolDb::is_undefined == (object file && symbol readable && sym.is_undefined()) - "
+             "in particular it does not look at the canonical symbol's binding (weakness is a property of the *referrer*, tested by the caller)")
+    se = F.body("libwild::layout::should_emit_undefined_error")
+    if se is None:
+        rep.lost("undefined-function", "layout::should_emit_undefined_error")
+    else:
+        try:
+            paths = decide.bool_paths(P, F, se)
+            ok, why = decide.check_formula(paths, {"abs": "is_absolute(", "sym": "variant:symbol(", "allow": "should_allow_object_undefined(", "weak": "Symbol::is_weak(",
+                                                   "beh": "variant:unresolved_symbols_behaviour", "undef": "SymbolDb::is_undefined("},
+                                           lambda v: v["abs"] and v["sym"] == "Ok" and not v["allow"] and not v["weak"] and v["beh"] not in ("IgnoreAll", "IgnoreInObjectFiles") and v["undef"])
+            rep.ob("undefined-function", "should_emit_undefined_error", ok, f"{len(paths)} paths; {why}", se.file, se.line)
+        except decide.NotLoopFree as e:
+            rep.ob("undefined-function", "should_emit_undefined_error", False, f"no longer loop-free: {e}", se.file, se.line)
+    iu = F.body("libwild::symbol_db::SymbolDb::is_undefined")
+    if iu is None:
+        rep.lost("undefined-function", "SymbolDb::is_undefined")
+    else:
+        try:
+            paths = decide.bool_paths(P, F, iu)
+            ok, why = decide.check_formula(paths, {"grp": "variant:index(self.groups", "ok": "Result::is_ok_and("}, lambda v: v["grp"] == "Objects" and v["ok"])
+            rep.ob("undefined-function", "is_undefined:outer", ok, f"{len(paths)} paths; {why}", iu.file, iu.line)
+        except decide.NotLoopFree as e:
+            rep.ob("undefined-function", "is_undefined:outer", False, f"no longer loop-free: {e}", iu.file, iu.line)
+        cl = F.closures_of("libwild::symbol_db::SymbolDb::is_undefined")
+        rep.ob("undefined-function", "is_undefined:closures", len(cl) == 1, f"{len(cl)} closure(s) in SymbolDb::is_undefined", iu.file, iu.line)
+        for c in cl:
+            try:
+                paths = decide.bool_paths(P, F, c)
+                ok, why = decide.check_formula(paths, {"u": "Symbol::is_undefined("}, lambda v: v["u"])
+                rep.ob("undefined-function", "is_undefined:closure", ok, f"the closure is exactly sym.is_undefined(): {why}", c.file, c.line)
+            except decide.NotLoopFree as e:
+                rep.ob("undefined-function", "is_undefined:closure", False, str(e), c.file, c.line)
     rep.assume("the fixpoint over arbitrary sets of inputs and the position of definitions on the command line are input data: not decided")
 
 
